@@ -9,6 +9,10 @@ macro_rules! dispatch {
             "C02" => $f::<props::c02::P>($($a),*),
             "C03" => $f::<props::c03::P>($($a),*),
             "C04" => $f::<props::c04::P>($($a),*),
+            "C05" => $f::<props::c05::P>($($a),*),
+            "C06" => $f::<props::c06::P>($($a),*),
+            "C07" => $f::<props::c07::P>($($a),*),
+            "C08" => $f::<props::c08::P>($($a),*),
             "C10" => $f::<props::c10::P>($($a),*),
             "C11" => $f::<props::c11::P>($($a),*),
             "C12" => $f::<props::c12::P>($($a),*),
